@@ -97,8 +97,10 @@ CLAIMED = {
          "and either flag (its five std text calls go through total wrappers; `-std_offset` and `std_offset - 3600` cannot overflow by the "
          "offset parser's range postcondition). parse_int's str::from_utf8(..).expect(..) is discharged through a cursor invariant: the "
          "remaining bytes stay valid UTF-8 because every cut is next to an ASCII byte (three UTF-8 axioms). Header::parse (slice patterns) "
-         "is a loop-free Kani harness. NOT covered by a proof: the body of from_tzif (chunks_exact/zip, from_be_bytes conversions).",
-    note=TB + "lookups are proved for timestamps whose UTC year is within +-5_879_500; that from_tzif returns only validated data is a syntactic check of its source text on every run (single Ok exit `x.validate()?; Ok(x)`), not a proof; parse_int (generic over FromStr) is declared, not extracted: assumed not to panic on valid UTF-8 (that its argument is valid UTF-8 is proved); three UTF-8 axioms and the totality of str::from_utf8/starts_with/ends_with/contains/trim_matches are trusted; 64-bit usize; Offset::resolve's fallback is outside (cfg(unix), fs).", ref="5 C19"),
+         "is a loop-free Kani harness. (4) The real Offset::resolve (cfg(unix) arm) is proved: no panic for any outcome of reading and decoding "
+         "/etc/localtime (fall back to 0), otherwise the zone's offset at the clock reading. NOT covered by a proof: the body of from_tzif "
+         "(chunks_exact/zip, from_be_bytes conversions), declared in unit resolve as returning Err or validated data.",
+    note=TB + "lookups are proved for timestamps whose UTC year is within +-5_879_500; that from_tzif returns only validated data is a syntactic check of its source text on every run (single Ok exit `x.validate()?; Ok(x)`), not a proof; parse_int (generic over FromStr) is declared, not extracted: assumed not to panic on valid UTF-8 (that its argument is valid UTF-8 is proved); three UTF-8 axioms and the totality of str::from_utf8/starts_with/ends_with/contains/trim_matches are trusted; 64-bit usize; fs::read is a declared total wrapper; the clock reading is between 1970 and day 2e9.", ref="5 C19"),
  'C11': dict(
     category='proof', engine='verus+kani',
     technique='contract-based deductive verification (Verus/Z3) of the part renderers extracted mechanically from /repo with their format! calls kept (literal and arguments visible); plus per-row loop-free Kani/CBMC harnesses over full-domain symbolic values on the real format_date_part / format_time_part with recording stubs (-Z stubbing)',
